@@ -514,7 +514,7 @@ def main():
                 for k in known:
                     if k.get('unit') == u['name'] and k['harness'] in names and k['excluding_harness'] not in names:
                         names.append(k['excluding_harness'])
-                jobs = max(1, min(args.jobs, len(names)))
+                jobs = max(1, min(args.jobs, len(names), u.get('jobs', 64)))   # memory-hungry units limit their own parallelism
                 tmo = u.get('timeout_' + tier, u.get('timeout', 1500))
                 results, tools, logp, cmd, wall = run_kani_unit(u, names, uroot, jobs, tmo, 'main')
                 info.update(cmd=cmd, wall_s=round(wall, 1), tools=tools, features=u['features'], env=u.get('env', {}))
